@@ -17,6 +17,7 @@ from harness.core import Result
 
 LEVEL = "exploration"
 RULES = {
+    "atheris": "thorough tier: Atheris/libFuzzer coverage-guided campaign; bytes are decoded into the same structured case and judged by the same oracle inside the target (half of the jobs start from an empty corpus, half from two small valid inputs)",
     "values": "exhaustive: every code point 0..255 as a cookie value in 6 positions (alone, doubled, start, middle, end of 'ab', "
     "between quotes) sent through both response classes and read back through both request classes alone and among foreign "
     "cookies; non-trivial = the character is outside the unquoted-legal set",
@@ -242,6 +243,18 @@ def cookie_case(draw):
     return {"cookies": cookies, "tz": draw(st.sampled_from(ZONES)), "foreign": draw(st.booleans())}
 
 
+def oracle_atheris(case) -> Result:
+    """Replay / triage oracle for inputs found by the Atheris campaign: decode the bytes like the fuzz target does."""
+    from fuzz import targets
+
+    res = oracle(targets.CASES["C16"](case["data"]))
+    res.label("atheris")
+    return res
+
+
+SUBS["atheris"] = oracle_atheris
+
+
 def run(rec, only=None):
     quick = rec.tier == "quick"
     core.drive_cases(rec, "values", value_cases(), oracle)
@@ -250,3 +263,8 @@ def run(rec, only=None):
     core.drive_cases(rec, "delete", ({"tz": z, "name": n} for z in ZONES for n in ("session", "a.b")), oracle_delete)
     rec.exhaustive["cookies"] = False
     rec.exhaustive["delete"] = True
+    if not quick:
+        # coverage-guided second engine (Atheris / libFuzzer), same oracle inside the target
+        from fuzz import driver
+
+        driver.campaign(rec, "C16", oracle_atheris, runs=200000, seeds=[b"\x01\x00\x02ab=c;d", b"\x02\x01\x09\x03abc\r\n\x05hello"], max_total_time=120, jobs=4)
